@@ -648,7 +648,36 @@ func (f *FA) phiLF(x *ssa.Phi, tlo, thi int64) LF {
 		}
 		okUp, okDown = false, false
 	}
-	if len(inits) == 0 || len(steps) == 0 || (!okUp && !okDown) {
+	if len(steps) == 0 {
+		// not an induction variable: a merge of values; interval join of the incoming edges
+		lo2, hi2 := int64(INF), int64(-INF)
+		for i, e := range x.Edges {
+			if f.Dead[x.Block().Preds[i]] {
+				continue
+			}
+			if e == ssa.Value(x) {
+				continue
+			}
+			blo, bhi := f.bounds(f.LFOf(e), nil)
+			if blo < lo2 {
+				lo2 = blo
+			}
+			if bhi > hi2 {
+				hi2 = bhi
+			}
+		}
+		if lo2 <= hi2 {
+			if lo2 < tlo {
+				lo2 = tlo
+			}
+			if hi2 > thi {
+				hi2 = thi
+			}
+			return f.atomLF(key, x.Name(), lo2, hi2)
+		}
+		return f.atomLF(key, x.Name(), tlo, thi)
+	}
+	if len(inits) == 0 || (!okUp && !okDown) {
 		return f.atomLF(key, x.Name(), tlo, thi)
 	}
 	mn, mx := inits[0], inits[0]
